@@ -95,6 +95,10 @@ CORNERS = [
     point(sps=33, chan='dm+'),
     point(sps=64, chan='fiber-'),
     point(bwf=2.0, chan='dm-'),
+    # coarsest time grids with the Gaussian pulse shape (fewest samples per slot: sampling-instant slips show here first)
+    point(sps=4, pulse='gaussian'),
+    point(sps=5, pulse='gaussian'),
+    point(sps=7, pulse='gaussian', chan='dm+'),
 ]
 K2_CORNERS = {point(launch=10.0, RL=1000.0), point(sps=33, chan='dm+'), point(sps=64, chan='fiber-'), point(bwf=2.0, chan='dm-')}
 
